@@ -642,3 +642,60 @@ func Faults(f Format, m *Model, def string, docJSON string) ([]Fault, error) {
 	g.walk(root, d.Type, nil, nil, nil)
 	return g.out, nil
 }
+
+// DrawValue draws a value that is valid for type t of model m (references
+// resolved), as DrawDoc does for definitions.
+func DrawValue(t *rapid.T, m *Model, typ T) any {
+	g := &docGen{t: t, m: m, feats: map[string]bool{}}
+	return g.value(typ, 1)
+}
+
+// Violations returns values that violate exactly one bound of a scalar type
+// (by one unit / half a unit / one rune), with the name of the bound.
+func Violations(typ T) map[string]any {
+	out := map[string]any{}
+	switch typ.Kind {
+	case KString:
+		if typ.MinLen != nil && *typ.MinLen > 0 {
+			out["minLength"] = strings.Repeat("a", *typ.MinLen-1)
+		}
+		if typ.MaxLen != nil {
+			out["maxLength"] = strings.Repeat("a", *typ.MaxLen+1)
+		}
+	case KInt:
+		if typ.Min != nil {
+			v := *typ.Min - 1
+			if typ.ExclMin {
+				v = *typ.Min
+			}
+			// a negative value does not decode into the unsigned Go type cog
+			// derives from `>= 0`: not a constraint violation the builder sees
+			if v >= 0 {
+				out["minimum"] = json.Number(strconv.FormatInt(int64(v), 10))
+			}
+		}
+		if typ.Max != nil {
+			v := *typ.Max + 1
+			if typ.ExclMax {
+				v = *typ.Max
+			}
+			out["maximum"] = json.Number(strconv.FormatInt(int64(v), 10))
+		}
+	case KFloat:
+		if typ.Min != nil {
+			v := *typ.Min - 0.5
+			if typ.ExclMin {
+				v = *typ.Min
+			}
+			out["minimum"] = json.Number(strconv.FormatFloat(v, 'f', -1, 64))
+		}
+		if typ.Max != nil {
+			v := *typ.Max + 0.5
+			if typ.ExclMax {
+				v = *typ.Max
+			}
+			out["maximum"] = json.Number(strconv.FormatFloat(v, 'f', -1, 64))
+		}
+	}
+	return out
+}
